@@ -163,7 +163,44 @@ func (h *c20Hist) step() {
 	c.Inc("js_calls")
 	c.Inc("evaluations")
 	ctx := &transformctx.Ctx{}
-	switch k := r.Intn(20); {
+	switch k := r.Intn(22); {
+	case k >= 20: // two scripts that differ only in white space that matters (inside a string literal, ending a line comment)
+		c.Inc("near_identical_script_pairs")
+		w1, w2 := gen.RandString(r, 4, false), gen.RandString(r, 3, false)
+		w1, w2 = strings.Map(c20Plain, w1)+"a", strings.Map(c20Plain, w2)+"b"
+		type sc struct {
+			script string
+			want   interface{}
+		}
+		var a, b sc
+		switch r.Intn(4) {
+		case 0:
+			a = sc{"'" + w1 + "' + ' ' + '" + w2 + "'", w1 + " " + w2}
+			b = sc{"'" + w1 + "' + '   ' + '" + w2 + "'", w1 + "   " + w2}
+		case 1:
+			a = sc{"'" + w1 + " " + w2 + "  " + w1 + "'.split(' ').length", 4}
+			b = sc{"'" + w1 + " " + w2 + "  " + w1 + "'.split('  ').length", 2}
+		case 2:
+			a = sc{"'" + w1 + "\t" + w2 + "'.length", len(w1) + len(w2) + 1} // a literal tab inside the literal
+			b = sc{"'" + w1 + "  " + w2 + "'.length", len(w1) + len(w2) + 2}
+		default:
+			a = sc{"7 // " + w1 + "\n + 3", 10}
+			b = sc{"7 // " + w1 + " + 3", 7}
+		}
+		pair := []sc{a, b}
+		if r.Bool() {
+			pair[0], pair[1] = pair[1], pair[0]
+		}
+		for _, p := range pair {
+			got, err := v21cf.JavaScript(ctx, p.script)
+			wb, _ := json.Marshal(p.want)
+			gb, _ := json.Marshal(got)
+			if err != nil || string(gb) != string(wb) {
+				h.violate("value-mapping:near-identical-scripts", "a script gave the value of another script that differs from it only in white space (which matters: inside a string literal / ending a comment)",
+					map[string]interface{}{"script": p.script, "expected_json": string(wb), "got_json": string(gb), "error": fmt.Sprint(err), "the_other_script": pair[0].script + " | " + pair[1].script})
+				break
+			}
+		}
 	case k < 6: // enumerating probe, without and with context
 		flat, want, _ := h.args()
 		c.Inc("probe_calls")
@@ -284,6 +321,14 @@ func (h *c20Hist) step() {
 			c.Inc("vm_first_seen")
 		}
 	}
+}
+
+// c20Plain keeps letters and digits only (script text is built from it).
+func c20Plain(x rune) rune {
+	if (x >= 'a' && x <= 'z') || (x >= 'A' && x <= 'Z') || (x >= '0' && x <= '9') {
+		return x
+	}
+	return -1
 }
 
 func min(a, b int) int {
